@@ -415,11 +415,12 @@ class Out:
 
 class ExcRec:
     """an exception in flight: the abstract exception object, where it originated, the call chain from the current function"""
-    __slots__ = ('atom', 'origin', 'chain', 'converted_from', 'implicit')
+    __slots__ = ('atom', 'origin', 'chain', 'converted_from', 'implicit', 'uncertain')
 
-    def __init__(self, atom, origin, chain, converted_from=None, implicit=False):
+    def __init__(self, atom, origin, chain, converted_from=None, implicit=False, uncertain=False):
         self.atom, self.origin, self.chain, self.converted_from = atom, origin, chain, converted_from
         self.implicit = implicit      # stands for whatever the try body raises implicitly for this handler: never leaves it
+        self.uncertain = uncertain    # raised only because a value is unknown to the analysis (not positively user controlled)
 
     @property
     def cls(self):
@@ -429,14 +430,14 @@ class ExcRec:
         return (self.atom, id(self.origin))
 
     def via(self, qual, node):
-        return ExcRec(self.atom, self.origin, ((qual, node),) + self.chain, self.converted_from)
+        return ExcRec(self.atom, self.origin, ((qual, node),) + self.chain, self.converted_from, self.implicit, self.uncertain)
 
     def retag(self, f):
         a = self.atom
         if a[2] is not None:
             t = f(a[2])
             if t != a[2]:
-                return ExcRec(('obj', a[1], t), self.origin, self.chain, self.converted_from)
+                return ExcRec(('obj', a[1], t), self.origin, self.chain, self.converted_from, self.implicit, self.uncertain)
         return self
 
 
@@ -3762,7 +3763,10 @@ class Interp:
             return av(const(0))
         out = set()
         raises = False
+        sure = False
         for a in args.pos[0]:
+            if a[0] in ('tok', 'str', 'c'):
+                sure = True
             if a[0] == 'c' and a[1] == 'str':
                 try:
                     int(a[2], 0)
@@ -3792,18 +3796,21 @@ class Interp:
             else:
                 out.add(INT_U)
         if raises:
-            self.library_raise(fr, 'ValueError', node)
+            really = any((a[0] == 'tok') or (a[0] == 'str' and a[1] == 'u') or (a[0] == 'c' and a[1] == 'str') for a in args.pos[0])
+            self.library_raise(fr, 'ValueError', node, uncertain=not really)
         return frozenset(out)
 
-    def library_raise(self, fr, exc, node):
-        rec = ExcRec(('obj', exc, None), node, ((fr.qual, node),))
+    def library_raise(self, fr, exc, node, uncertain=False):
+        rec = ExcRec(('obj', exc, None), node, ((fr.qual, node),), uncertain=uncertain)
         self.ev_origin[id(node)] = (fr.qual, node, exc)
         fr.pending.append(rec)
 
     # -- builtins and library models ----------------------------------------------------------------------------------------
-    def user_value(self, val):
-        """may the value be an integer / text whose size or content the user controls"""
+    def user_value(self, val, sure=False):
+        """may the value be an integer / text whose size or content the user controls (sure: positively, not merely unknown)"""
         for a in val:
+            if a == TOP and sure:
+                continue
             if a in (INT_U, TOP, FLOAT, DATA) or a[0] in ('idx',) or a == ('int', 'fsize'):
                 return True
             if is_str_atom(a) or a[0] in ('obj', 'list', 'seq', 'toks', 'dict', 'kdict', 'bytes', 'none'):
@@ -4407,7 +4414,10 @@ class Interp:
                 if fn.startswith('unpack') or fn == 'iter_unpack':
                     vals_user = True
                 if not fmt_ok or vals_user:
-                    self.library_raise(fr, 'struct.error', node)
+                    sure = (x is not None and any(a != TOP and not (is_const(a) and a[1] in ('str', 'bytes')) for a in x)) \
+                        or any(self.user_value(v, sure=True) for v in pos[1:]) or (args.star is not None and self.user_value(args.star, sure=True)) \
+                        or fn.startswith('unpack') or fn == 'iter_unpack'
+                    self.library_raise(fr, 'struct.error', node, uncertain=not sure)
                 if fn == 'calcsize':
                     return av(INT_S)
                 if fn == 'pack':
